@@ -117,6 +117,40 @@ def nested_loop_functions():
                 yield cfg.renumber([("assign", 0), loop(k1, body), ("use", 0)])
 
 
+def loop_in_slot_functions():
+    """A loop (while / for / while True) whose body is a block of <=2 atoms containing a use or an
+    assignment, placed in every block position of every compound statement (if / else, loop body /
+    loop else, try body / handler / else / finally, with body), with and without an initial assignment."""
+    L2 = [b for b in blocks(LOOP_ATOMS, 2) if any(s[0] in ("assign", "use") for s in b)]
+    filler = [("call",)]
+
+    def slots(inner):
+        yield ("if", [inner], None)
+        yield ("if", filler, [inner])
+        for k in ("while", "for"):
+            yield (k, [inner], None)
+            yield (k, filler, [inner])
+            yield (k, [("if", [("break",)], None)], [inner])
+        yield ("whiletrue", [inner, ("if", [("break",)], None)])
+        yield ("try", [inner], [filler], None, None)
+        yield ("try", filler, [[inner]], None, None)
+        yield ("try", filler, [filler], [inner], None)
+        yield ("try", filler, [], None, [inner])
+        yield ("with", "S", [inner])
+        yield ("with", "N", [inner])
+    for body in L2:
+        for kind in ("while", "for", "whiletrue"):
+            if kind == "whiletrue":
+                if body[-1][0] in ("break", "continue", "return", "raise"):
+                    continue
+                inner = ("whiletrue", list(body) + [("if", [("break",)], None)])
+            else:
+                inner = (kind, list(body), None)
+            for outer in slots(inner):
+                for prefix in ([], [("assign", 0)]):
+                    yield cfg.renumber(prefix + [outer, ("use", 0)])
+
+
 def nonlocal_functions():
     """v = ..; one compound over {v=, setvN() [a nested function assigning v through `nonlocal`], use, call, return}; use."""
     atoms = [("assign", 0), ("assignn", 0), ("use", 0), ("call",), ("return",)]
@@ -136,6 +170,7 @@ def nonlocal_functions():
 def exhaustive_functions():
     yield from nested_loop_functions()
     yield from nonlocal_functions()
+    yield from loop_in_slot_functions()
     for c in compounds():
         for prefix in ([], [("assign", 0)]):
             yield cfg.renumber(prefix + [c, ("use", 0)])
@@ -342,7 +377,32 @@ def minimise(stmts, kind, checker):
     fails = [(k, w) for k, w, _ in judge([small], checker) if kind_of(k) == kind]
     if not fails:
         return None
-    return f"{kind}|{cfg.signature(small)}", f"[minimal: {cfg.encode(small)}] " + fails[0][1], small
+    sig = cfg.signature(small)
+    rel = relation_tokens(fails[0][0])
+    if rel and "LELSE" in sig.split(","):
+        # loop-else findings are keyed more finely: where the use and the definition sit relative to each other
+        sig = ",".join(sorted(set(sig.split(",")) | set(rel)))
+    return f"{kind}|{sig}", f"[minimal: {cfg.encode(small)}] " + fails[0][1], small
+
+
+def relation_tokens(judge_key):
+    """Tokens describing where the use (and the definition, if the failure names one) of a minimal
+    failing skeleton sit: U:<path below the common prefix>, D:<...>, C:<construct> for every
+    construct on the common prefix.  while / for are both written `loop`."""
+    m = re.match(r"^[\w-]+\|use@([^|]*)(?:\|def@([^|~]*))?", judge_key)
+    if not m:
+        return []
+    norm = lambda p: [c.replace("while.", "loop.").replace("for.", "loop.") for c in (p or "").split(">") if c and c != "top"]
+    up, dp = norm(m.group(1)), (norm(m.group(2)) if m.group(2) is not None and m.group(2) != "?" else None)
+    if dp is None:
+        return ["U:" + ">".join(up)] if up else ["U:top"]
+    i = 0
+    while i < len(up) and i < len(dp) and up[i] == dp[i]:
+        i += 1
+    toks = ["C:" + c for c in up[:i]]
+    toks.append("U:" + (">".join(up[i:]) or "same"))
+    toks.append("D:" + (">".join(dp[i:]) or "same"))
+    return toks
 
 
 def report(col, fails, checker):
@@ -393,6 +453,7 @@ def run_shard(spec):
         col.extra["exhaustive"] = not col.budget_hit
         col.extra["exhaustive_bounds"] = ["[optional assignment] + every compound with blocks of <=2 atoms (<=1 for three-block try forms) + final use",
                                           "closure reads: one compound over {v=, inner(), call(), return}",
+                                          "a loop with a body of <=2 atoms in every block position of every compound statement",
                                           "nonlocal: v=; one compound or if/else over {v=, nested setter through nonlocal, use, call, return}; use",
                                           "loops nested 2 and 3 deep (while/for at each level) with `if c: [v=;] break/continue` after the inner loop at each level"]
         return col.result()
